@@ -63,7 +63,7 @@ theorem endpoint_before_unready_pod_example :
 /-- the side conditions of `convergence_to_derive` hold for this history, and `derive` gives literally
     the view of the ordered run -/
 example : WF (run {} [.slice s1, .pod p1, .svc svcA]).c ∧ NoCachedAddr (run {} [.slice s1, .pod p1, .svc svcA]).c ∧
-    NoPodAtUntargeted (run {} [.slice s1, .pod p1, .svc svcA]).c ∧ DistinctEps (run {} [.slice s1, .pod p1, .svc svcA]).c host svcA := by
+    NoPodAtUntargeted (run {} [.slice s1, .pod p1, .svc svcA]).c ∧ DistinctB (run {} [.slice s1, .pod p1, .svc svcA]).c host := by
   decide +kernel
 
 theorem derive_example :
@@ -71,6 +71,8 @@ theorem derive_example :
     derive (run {} [.slice s1, .pod p1, .svc svcA]).c host = viewCold [.svc svcA, .pod p1, .slice s1] := by
   decide +kernel
 
+/-- `order_independent` applies to the two extreme interleavings of the endpoint-before-pod history
+    (all its hypotheses hold; the stores differ as lists, not as sets) -/
 theorem pod_before_service_example :
     viewAfter [.pod p1, .slice s1, .svc svcA] = viewAfter [.svc svcA, .pod p1, .slice s1] := by
   decide +kernel
@@ -116,6 +118,20 @@ theorem address_moves_between_slices_example :
     viewAfter [.svc svcA, .pod p1, .pod p2, .slice s1both, .slice s2, .slice s1] =
       viewCold [.svc svcA, .pod p1, .pod p2, .slice s1, .slice s2] := by
   decide +kernel
+
+/-- `order_independent` applies to two interleavings of one history (all its hypotheses are checked
+    by evaluation; the stores differ as lists, not as sets) -/
+def opsA : List Op := [.svc svcA, .slice s1, .pod p1, .pod p2, .slice s1both]
+def opsB : List Op := [.pod p2, .pod p1, .slice s1, .slice s1both, .svc svcA]
+
+theorem order_independent_example : ViewAgree (viewAfter opsA) (viewAfter opsB) :=
+  order_independent opsA opsB host (by decide +kernel) (by decide +kernel)
+    (sameObjects_of_b (by decide +kernel)) (by decide +kernel) (by decide +kernel) (by decide +kernel)
+    (by decide +kernel) (by decide +kernel) (by decide +kernel) (by decide +kernel)
+    (distinct_of_b (by decide +kernel)) (distinct_of_b (by decide +kernel))
+
+/-- the two stores differ as lists (order of first arrival) -/
+example : (run {} opsA).c.pods ≠ (run {} opsB).c.pods := by decide +kernel
 
 /-- the stores run ahead: everything is written before the first handler runs, slices first -/
 theorem stores_ahead_example :
